@@ -110,13 +110,22 @@ func FuzzValueByTag(f *testing.F) {
 			b = append(b, ref.SOH)
 		}
 		msg := ref.Frame(ref.StdTags, "FIX.4.4", b)
-		want, found := ref.Lookup(msg, tag)
+		// which occurrence is returned when a tag occurs more than once is not
+		// part of the property: any field with exactly that tag is a correct answer
+		all := ref.LookupAll(msg, tag)
+		found := len(all) > 0
 		got, err, pan := valueByTag(msg, tag)
+		okValue := false
+		for _, v := range all {
+			if v == string(got) {
+				okValue = true
+			}
+		}
 		switch {
 		case pan != nil:
 			t.Fatalf("C11: ValueByTag(%q) panicked (%v) on %q", tag, pan, msg)
-		case found && (err != nil || string(got) != want):
-			t.Fatalf("C18: ValueByTag(%q) = %q, %v; the field's value is %q in %q", tag, got, err, want, msg)
+		case found && (err != nil || !okValue):
+			t.Fatalf("C18: ValueByTag(%q) = %q, %v; fields with that tag carry %q in %q", tag, got, err, all, msg)
 		case !found && err == nil:
 			t.Fatalf("C18: ValueByTag(%q) = %q although no field has that tag in %q", tag, got, msg)
 		}
